@@ -82,7 +82,7 @@ class Ctx:
         self.config_label = config_label
         self.obligations: list[Obligation] = []
         self.names_seen = {}
-        self.inline = set()
+        self.inline = set(DEFAULT_INLINE)
         self.initial_memo = {}
         self.initial_cells = {}
         self.init_overrides = {}     # (id(obj), attr) -> value or callable(ctx)->value
@@ -101,6 +101,8 @@ class Ctx:
         self.loop_invariants = {}    # function key -> list of invariant callables
         self.current_contract = None
         self.approx = False          # concrete replay: float comparisons with tolerance (rel 1e-9, abs 1e-12)
+        self.concrete = False        # concrete replay: heap reads return the real objects' values
+        self.uninterpreted = {}
         self.snapshot_root = None
         self.config = None
 
@@ -175,6 +177,10 @@ def find_function_node(tree, qualname):
 
 DROP_CALL_RECEIVERS = ("logger",)
 
+# two-line wrappers around the pint registry that are always executed in place (their body is the real source)
+DEFAULT_INLINE = {"geophires_x/Parameter.py::HasQuantity.quantity", "geophires_x/GeoPHIRESUtils.py::quantity",
+                  "geophires_x/Units.py::convertible_unit"}
+
 
 class Executor:
     def __init__(self, ctx: Ctx):
@@ -210,10 +216,8 @@ class Executor:
             v = ctx.initial_memo[key]
         else:
             path = f"{ref.path}.{attr}"
-            if key in ctx.init_overrides:
-                v = ctx.init_overrides[key]
-                if callable(v) and not isinstance(v, (type, enum.EnumMeta)):
-                    v = v(self, path)
+            if key in ctx.init_overrides and not ctx.concrete:
+                v = ctx.init_overrides[key](self, path)
             else:
                 real = getattr(ref.obj, attr)
                 v = self.symbolize_initial(ref, attr, real, path)
@@ -233,6 +237,10 @@ class Executor:
         """policy for lazily created initial values (see DESIGN 2.1 step 2)"""
         import numpy as np
         real = py_number(real)
+        if self.ctx.concrete:
+            if isinstance(real, (list, np.ndarray)):
+                return self.seq_of(None, real)
+            return self.wrap(real, path)
         owner = ref.obj
         cls_name = type(owner).__name__
         is_param = hasattr(owner, "Name") and hasattr(owner, "UnitType") and hasattr(owner, "CurrentUnits")
@@ -362,16 +370,28 @@ class Executor:
         return tuple(self.ev(e, st) for e in node.elts)
 
     def ev_List(self, node, st):
+        pieces = []
         items = []
         for e in node.elts:
             if isinstance(e, ast.Starred):
                 sq = self.seq_of(st, self.ev(e.value, st), node)
                 if sq.items is None:
-                    self.unsupported(node, "starred symbolic-length sequence in list display")
-                items.extend(sq.items)
+                    if items:
+                        pieces.append(Seq("list", len(items), items=items, et="any"))
+                        items = []
+                    pieces.append(sq.with_kind("list"))
+                else:
+                    items.extend(sq.items)
             else:
                 items.append(self.ev(e, st))
-        return st.new_cell(Seq("list", len(items), items=items, et="any"))
+        if not pieces:
+            return st.new_cell(Seq("list", len(items), items=items, et="any"))
+        if items:
+            pieces.append(Seq("list", len(items), items=items, et="any"))
+        acc = pieces[0]
+        for p in pieces[1:]:
+            acc = self.concat(acc, p)
+        return st.new_cell(acc)
 
     def ev_JoinedStr(self, node, st):
         # f-strings are opaque text (A5): only used for logging / exception messages in the functions in scope
@@ -770,7 +790,7 @@ class Executor:
             if a_nd or b_nd:
                 # numpy broadcasting: lists are converted to arrays
                 return st.new_cell(self.elementwise(lambda x, y: self.arith(sym, x, y), a, b, st, node).with_kind("nd"))
-            self.unsupported(node, f"operator {sym} on list and {type(b).__name__}")
+            raise PathRaise(TypeError, f"unsupported operand type(s) for {sym}: list and {type(b).__name__}")
         if sym in ("^", "&", "|"):
             ta, tb = self.truth(a, st, node), self.truth(b, st, node)
             isb = lambda x: isinstance(x, bool) or (is_sym(x) and z3.is_bool(x))
@@ -842,6 +862,10 @@ class Executor:
         """scalar arithmetic with python's int/float distinction; floats are exact reals (A1)"""
         a = py_number(a)
         b = py_number(b)
+        if isinstance(a, self.intr.NanOr):
+            a = a.value       # arithmetic on a possibly-NaN library result: only on paths where it is not NaN (A1)
+        if isinstance(b, self.intr.NanOr):
+            b = b.value
         if isinstance(a, enum.IntEnum):
             a = int(a)
         if isinstance(b, enum.IntEnum):
@@ -1048,6 +1072,10 @@ class Executor:
             if isinstance(pyf, types.MethodType):
                 bound = self.wrap(pyf.__self__)
                 pyf = pyf.__func__
+        w = getattr(pyf, "__wrapped__", None)
+        if w is not None and isinstance(w, types.FunctionType) and is_repo_callable(w) \
+                and self.intr.lookup_intrinsic(pyf) is None:
+            pyf = w       # functools.lru_cache / wraps around a repository function: memoisation is transparent
         # library / builtin intrinsic?
         h = intr.lookup_intrinsic(pyf)
         if h is not None:
@@ -1058,6 +1086,9 @@ class Executor:
             return [Outcome("return", st, ExcVal(pyf, tuple(args)))]
         if isinstance(pyf, types.FunctionType) and is_repo_callable(pyf):
             key = self.func_key(pyf)
+            if key in self.ctx.uninterpreted:
+                a2 = ([bound] if bound is not None and not isinstance(bound, type) else []) + list(args)
+                return [Outcome("return", st, self.intr.call_uninterpreted(self, st, key, a2, kwargs, node))]
             contract = self.ctx.registry.get(key) if self.ctx.registry else None
             a2 = ([bound] if bound is not None and not isinstance(bound, type) else []) + list(args)
             if key in self.ctx.inline or getattr(contract, "inline", False):
